@@ -14,6 +14,8 @@ Lemma on_stream_terminated_eq : forall c s, on_stream_terminated c s = (s, SRemo
 Proof. reflexivity. Qed.
 Lemma fse_quic_eq : forall c s, fse_quic c s = (s, SRemoteTerminate c).
 Proof. reflexivity. Qed.
+Lemma on_stream_unknown_eq : forall s, on_stream_unknown s = (s, SUndefined).
+Proof. reflexivity. Qed.
 
 (* ------------------------------------------------------------------ the grammar of a message body as a relation *)
 (* what may follow a trailer section k: the end of the stream *)
